@@ -18,8 +18,8 @@ EXTENDS TraceSync, Customize
 
 T == INSTANCE Triggers
 
-VARIABLES tcz, asked, lastRel
-cvars == <<tcz, asked, lastRel>>
+VARIABLES tcz, asked, lastRel, askFailed
+cvars == <<tcz, asked, lastRel, askFailed>>
 
 NoSelC == [ml |-> <<>>, me |-> <<>>]
 NoTc   == [kind |-> "none", pkind |-> "", pav |-> "", pNs |-> FALSE, genSel |-> FALSE, ignoreStatus |-> FALSE, fin |-> "",
@@ -83,26 +83,32 @@ C15_Wakes ==
        \A o \in { x \in ChangedObjs : ObjKey(x) \in lastRel[pk].keys } :
          \* the parent as synced last -- or, when its generation moved on since (not synced again yet), as far as the
          \* rules in force still select the object
+         \* (a parent whose customize call for its present generation has just FAILED has no rules in force: nothing demanded)
          LET cand == { q \in Range(E.parents) : /\ ObjKey(q) = pk /\ q.uid = lastRel[pk].uid /\ T!Cares(tcz, q)
+                                                 /\ CacheKey(q) \notin askFailed
                                                  /\ (q.gen = lastRel[pk].gen \/ o \in Selected(RulesNow(q, lastRel[pk]), q, tcz.pNs, {o})) }
          IN \A q \in cand : \/ <<q.ns, q.name>> \in QueuedIds
                             \/ Report("C15", "C15_Wakes", <<"object of the related map changed, parent not queued", "object", ObjKey(o),
                                                             "parent", <<q.ns, q.name>>, "gen", q.gen, "synced at", lastRel[pk].gen, "keys", E.keys>>)
 
 \* ---- state ----------------------------------------------------------------------------------
-CInit == Init /\ tcz = NoTc /\ asked = <<>> /\ lastRel = <<>>
+CInit == Init /\ tcz = NoTc /\ asked = <<>> /\ lastRel = <<>> /\ askFailed = {}
 CUpd ==
-  CASE E.ev = "Reset"   -> tcz' = NoTc /\ asked' = <<>> /\ lastRel' = <<>>
-    [] E.ev = "TrigCfg" -> tcz' = E.tc /\ UNCHANGED <<asked, lastRel>>
+  CASE E.ev = "Reset"   -> tcz' = NoTc /\ asked' = <<>> /\ lastRel' = <<>> /\ askFailed' = {}
+    [] E.ev = "TrigCfg" -> tcz' = E.tc /\ UNCHANGED <<asked, lastRel, askFailed>>
     [] E.ev = "Hook"    ->
          /\ UNCHANGED tcz
          /\ asked' = IF E.hook = "customize" /\ "rulesOK" \in DOMAIN E /\ E.rulesOK
                      THEN (CacheKey(E.req.parent) :> E.rules) @@ asked ELSE asked
+         /\ askFailed' = IF E.hook # "customize" THEN askFailed
+                         \* (kept until the next Queue observation: which of a step's events a hook call served is not recorded)
+                         ELSE IF E.code = 200 THEN askFailed ELSE askFailed \cup {CacheKey(E.req.parent)}
          /\ lastRel' = IF E.hook \in {"sync", "finalize"}
                        THEN (ObjKey(E.req.parent) :> [uid |-> E.req.parent.uid, gen |-> E.req.parent.gen,
                                                       keys |-> { ObjKey(o) : o \in RelObjs(E.req) }]) @@ lastRel
                        ELSE lastRel
-    [] E.ev \in {"Reconfig", "Crash"} -> asked' = <<>> /\ UNCHANGED <<tcz, lastRel>>
+    [] E.ev \in {"Reconfig", "Crash"} -> asked' = <<>> /\ askFailed' = {} /\ UNCHANGED <<tcz, lastRel>>
+    [] E.ev = "Queue" -> askFailed' = {} /\ UNCHANGED <<tcz, asked, lastRel>>
     [] OTHER -> UNCHANGED cvars
 CNext == Next /\ CUpd
 CSpec == CInit /\ [][CNext]_<<vars, cvars>>
